@@ -121,6 +121,9 @@ func execHold(capn int, items []string) hx.Result {
 				fail("result-changed", "the result of call %d (%s) changed after call %d (%s) / after the caller overwrote his inputs: was %v, now perm=%v orbits=%v gens=%v", j, e.item, k, x.s, e.snap, e.perm, e.orb, e.gens)
 			}
 		}
+		if x.cls != nil { // CanonicalIsomorph has no class argument
+			continue
+		}
 		if msg := guard(func() {
 			if p := graph.CanonicalIsomorph(x.g.Sparse()); hx.Ints(p) != hx.Ints(hd.snap.perm) {
 				fail("entrypoints", "item %d (%s): CanonicalIsomorph returns %v, CanonicalIsomorphFull %v", k, x.s, p, hd.snap.perm)
